@@ -301,34 +301,43 @@ def licenseString (l : Option (List LicChoice)) : String :=
 
 def autoId (cc : Nat) : String := "protobom-auto--" ++ Str.pad9 cc
 
+/-- hashes of a component: unknown algorithms are skipped, the first entry per algorithm wins -/
+def compHashes (hashes : List Hash) : List (Int × String) :=
+  hashes.foldl (fun m h =>
+    let a := hashFromCDX h.algo
+    if a = 0 then m else if m.any (·.1 = a) then m else m ++ [(a, h.value)]) ([] : List (Int × String))
+
+def compRefs (refs : List CRef) : List Protobom.ExtRef :=
+  refs.map (fun x =>
+    ({ url := x.url, comment := x.comment, typ := refTypeIn x.typ,
+       hashes := x.hashes.foldl (fun m h => Spdx.mapStore m (hashIn h.algo) h.value) [] } : Protobom.ExtRef))
+
+def compIds (purl cpe : String) : List (Int × String) :=
+  (if cpe = "" then [] else [((if Str.hasPrefix cpe "cpe:2.3" then 3 else 2 : Int), cpe)])
+    ++ (if purl = "" then [] else [(1, purl)])
+
+/-- the attribute with Go field name `f` that `componentToNode` gives the node of a component -/
+def compAttr (c : Component) (f : String) (k : Kind) : Val :=
+  match c with
+  | .mk _ t n v d cp purl cpe lic hashes refs _ _ =>
+    if f = "Name" then .str n
+    else if f = "Version" then .str v
+    else if f = "Licenses" then .strs (licenseList lic)
+    else if f = "LicenseConcluded" then .str (licenseString lic)
+    else if f = "Copyright" then .str cp
+    else if f = "Hashes" then .imap (compHashes hashes)
+    else if f = "Description" then .str d
+    else if f = "ExternalReferences" then .refs (compRefs refs)
+    else if f = "Identifiers" then .imap (compIds purl cpe)
+    else if f = "PrimaryPurpose" then .enums [purposeIn t]
+    else k.zero
+
 def componentToNode (c : Component) (cc : Nat) : Node :=
   match c with
-  | .mk r t n v d cp purl cpe lic hashes refs _ _ =>
-    let p := purposeIn t
-    let ids : List (Int × String) :=
-      (if cpe = "" then [] else [((if Str.hasPrefix cpe "cpe:2.3" then 3 else 2 : Int), cpe)])
-        ++ (if purl = "" then [] else [(1, purl)])
-    let hs := hashes.foldl (fun m h =>
-        let a := hashFromCDX h.algo
-        if a = 0 then m else if m.any (·.1 = a) then m else m ++ [(a, h.value)]) ([] : List (Int × String))
-    let rs := refs.map (fun x =>
-        ({ url := x.url, comment := x.comment, typ := refTypeIn x.typ,
-           hashes := x.hashes.foldl (fun m h => Spdx.mapStore m (hashIn h.algo) h.value) [] } : Protobom.ExtRef))
-    let g (f : String) (k : Kind) : Val :=
-      if f = "Name" then .str n
-      else if f = "Version" then .str v
-      else if f = "Licenses" then .strs (licenseList lic)
-      else if f = "LicenseConcluded" then .str (licenseString lic)
-      else if f = "Copyright" then .str cp
-      else if f = "Hashes" then .imap hs
-      else if f = "Description" then .str d
-      else if f = "ExternalReferences" then .refs rs
-      else if f = "Identifiers" then .imap ids
-      else if f = "PrimaryPurpose" then .enums [p]
-      else k.zero
+  | .mk r t n v d cp purl cpe lic hashes refs s ks =>
     { id := if r = "" then autoId cc else r
-      typ := if p = 12 then 1 else 0     -- Purpose_FILE
-      attrs := Schema.nodeAttrs.map (fun fk => g fk.1 fk.2) }
+      typ := if purposeIn t = 12 then 1 else 0     -- Purpose_FILE
+      attrs := Schema.nodeAttrs.map (fun fk => compAttr (.mk r t n v d cp purl cpe lic hashes refs s ks) fk.1 fk.2) }
 
 mutual
   /-- `componentToNodeList`: the node list of a component subtree and the updated counter -/
